@@ -10,6 +10,7 @@ from collections import Counter
 
 from dsim.core import World, Violation, HarnessError
 from dsim.ref import opmodel as M
+from dsim.worlds.devcommon import sigma_ok
 
 POOL_CAP = 6
 
@@ -413,7 +414,7 @@ class HistogramWorld(World):
                 # seeded statistical closeness (6.5 sigma + 1/n), deterministic because the seam is seeded per step
                 for b, p in freqs.items():
                     f = got_counts.get(b, 0) / ns
-                    if abs(f - p) > 6.5 * math.sqrt(p * (1 - p) / ns) + 1.0 / ns:
+                    if not sigma_ok(f, p, ns):
                         V.append(Violation("C18", "resample-distribution", site, {"bitstring": b, "p": p, "f": f, "n": ns}))
                         break
             self._check_pool(V, k)
